@@ -66,6 +66,9 @@ Proof.
   exists c, r. repeat split; assumption.
 Qed.
 
+Lemma comm_ok_inv s : comm_ok s = true -> ident_ok s = true /\ comm_sem_ok s = true.
+Proof. unfold comm_ok. intro H. apply andb_true_iff in H. exact H. Qed.
+
 Lemma take_ident_app s rest : ident_ok s = true -> stopb id_char rest = true ->
   take_ident (s ++ rest) = Some (s, rest).
 Proof.
@@ -285,12 +288,13 @@ Proof.
     rewrite Hpp, app_nil_r, orb_true_r.
     destruct (is_nil (p_comm p)) eqn:Enil.
     + cbn [app]. apply take_value_plain; [exact Hfits|apply cpart_plain].
-    + cbn [orb] in Hcomm. cbn [app].
-      apply (take_value_unit _ _ _ None (cpart oc) None (cpart oc) Hfits Hcomm (cpart_sp_head oc)).
+    + cbn [orb] in Hcomm. cbn [app]. destruct (comm_ok_inv _ Hcomm) as [Hcomm' _].
+      apply (take_value_unit _ _ _ None (cpart oc) None (cpart oc) Hfits Hcomm' (cpart_sp_head oc)).
       * apply take_opening_skip, cpart_skip_open.
       * apply take_closing_skip, cpart_skip_close.
   - apply andb_true_iff in Hprice as [Hprice Hkind]. apply andb_true_iff in Hprice as [Hprice Hfta].
     apply andb_true_iff in Hprice as [Hc1 Hc2].
+    apply comm_ok_inv in Hc1 as [Hc1 _]. apply comm_ok_inv in Hc2 as [Hc2 _].
     destruct (ident_ok_inv _ Hc1) as (a0 & ar & Ea & _ & _).
     destruct (ident_ok_inv _ Hc2) as (b0 & br & Eb & _ & _).
     assert (Hn1 : is_nil (p_comm p) = false) by (rewrite Ea; reflexivity).
@@ -311,6 +315,20 @@ Proof.
       * right. eexists. reflexivity.
       * apply take_opening_skip. right. eexists _, _. repeat split; reflexivity.
       * cbn [app]. rewrite <- app_assoc. cbn [app]. exact (take_closing_price 64 _ _ _ eq_refl Hfq Hc2 (cpart_sp_head oc)).
+Qed.
+
+Lemma unit_sem_ok_raw p oc : posting_shape_b p = true -> posting_price_b p = true ->
+  unit_sem_ok (rp_unit (jpost_raw (mkJPost p oc))) = true.
+Proof.
+  intros Hshape Hprice. unfold posting_shape_b in Hshape. apply andb_true_iff in Hshape as [_ Hcomm].
+  unfold posting_price_b in Hprice. unfold jpost_raw. cbn [jp_p rp_unit].
+  destruct (is_nil (p_comm p)) eqn:Enil; [reflexivity|]. cbn [orb] in Hcomm.
+  destruct (comm_ok_inv _ Hcomm) as [_ Hs]. cbn [unit_sem_ok u_comm u_closing]. rewrite Hs. cbn [andb].
+  destruct (str_eqb (p_txn_comm p) (p_comm p)) eqn:Eeq; [rewrite orb_true_r; reflexivity|].
+  apply andb_true_iff in Hprice as [Hprice _]. apply andb_true_iff in Hprice as [Hprice _].
+  apply andb_true_iff in Hprice as [_ Hc2]. destruct (comm_ok_inv _ Hc2) as [_ Hs2].
+  destruct (is_nil (p_txn_comm p)); [reflexivity|]. cbn [orb].
+  destruct (p_total p); [exact Hs2|]. destruct (ddiv _ _); [exact Hs2|reflexivity].
 Qed.
 
 Lemma unit_tail_sp_head p : sp_head (unit_tail p).
@@ -357,6 +375,7 @@ Proof.
   destruct (print_dec_app_head (p_amount (jp_p jp)) tail) as (d0 & dr & Ed & Hd0).
   rewrite Ed. rewrite (dec_char_not_semi _ Hd0).
   destruct sp as [|s0 sp']; [congruence|]. cbn [is_nil]. rewrite <- Ed.
-  unfold tail. rewrite Hval. rewrite take_comment_cpart.
+  unfold tail. rewrite Hval. rewrite (unit_sem_ok_raw _ (jp_comment jp) Hshape Hprice). cbn [negb].
+  rewrite take_comment_cpart.
   unfold jpost_raw. reflexivity.
 Qed.
